@@ -28,12 +28,13 @@ type c20KeySet struct {
 
 func c20GenHistory(c *Ctx) {
 	pg := newC20PrimeGen()
-	cfgs := []c20BRCfg{{4, 4, []int{27}, []int{40}, 7, []int{14}, 3, false, -1, false}}
+	cfgs := []c20BRCfg{{4, 4, []int{27}, []int{40}, 7, []int{14}, 3, false, -1, false, false},
+		{4, 4, []int{27}, []int{40}, 7, []int{14}, 2, false, -1, false, true}}
 	if c.Thorough() {
 		cfgs = append(cfgs,
-			c20BRCfg{4, 4, []int{27}, nil, 7, []int{14}, 2, false, -1, false},
-			c20BRCfg{5, 4, []int{30}, []int{41}, 0, []int{15}, 4, false, -1, false},
-			c20BRCfg{4, 4, []int{28, 30}, []int{40, 41}, 0, []int{13, 14}, 2, false, -1, false})
+			c20BRCfg{4, 4, []int{27}, nil, 7, []int{14}, 2, false, -1, false, false},
+			c20BRCfg{5, 4, []int{30}, []int{41}, 0, []int{15}, 4, false, -1, true, true},
+			c20BRCfg{4, 4, []int{28, 30}, []int{40, 41}, 0, []int{13, 14}, 2, false, -1, false, false})
 	}
 	for _, cfg := range cfgs {
 		nthBR := uint64(2 << cfg.logNBR)
@@ -47,11 +48,11 @@ func c20GenHistory(c *Ctx) {
 		for _, b := range cfg.bitsLWE {
 			QL = append(QL, pg.next(b, uint64(2<<cfg.logNLWE), -1))
 		}
-		psBR, err := c20NewPS(cfg.logNBR, Q, P)
+		psBR, err := c20NewPSFlag(cfg.logNBR, Q, P, !cfg.brCoeff)
 		if err != nil {
 			continue
 		}
-		psL, err := c20NewPS(cfg.logNLWE, QL, nil)
+		psL, err := c20NewPSFlag(cfg.logNLWE, QL, nil, !cfg.lweCoeff)
 		if err != nil {
 			continue
 		}
